@@ -70,6 +70,7 @@ func init() {
 			E9ContainsFlow(c, r)
 			E9Fills(c, r)
 			E9HitCounting(c, r)
+			E9PendingPerSubpath(c, r)
 			E9CubicDirection(c, r)
 			E3ContainmentFilter(c, r)
 			E9TangentFromRoots(c, r)
@@ -124,6 +125,7 @@ func init() {
 		Explanation: "Decides, for every input string: (1) each index of the input bytes in ParseSVGPath/skipCommaWhitespace is dominated by a bound check on every path through the function (path-sensitive guard facts over the AST, short-circuit aware); the per-command number-count table fits the number buffer; (2) no explicit panic(...) in the canvas module is reachable in the VTA call graph from ParseSVGPath or ParseSVG (restricted to the import closure of package canvas, since no value of another package's type can exist in that call tree) except the reviewed sites listed in the evidence. NOT decided: round-trip equality and number minification, implicit run-time panics other than the named index guards, termination, panics inside third-party Go dependencies (font parsing, shaping).",
 		Assumptions: []string{"cursor variables are non-negative (initialised to 0 and only incremented)", "strconv.ParseFloat (tdewolff/parse) returns 0 <= n <= len(b)", "third-party dependencies are trusted not to panic"},
 		Run: func(c *core.Ctx, r *core.Report) {
+			E8Units(c, r)
 			E11RelativeBeforeUse(c, r)
 			E11ImplicitCommand(c, r)
 			E2SerialiseEveryCommand(c, r)
@@ -163,6 +165,7 @@ func init() {
 		Explanation: "Decides, for every sequence of writer calls, the structural clauses of the PDF writer: bytes reach the io.Writer only through write/writeBytes which add the returned count to pos; every 'n 0 obj' emission is immediately preceded by recording pos at index n-1; the reserved catalog/info/page-tree numbers agree with trailer Root/Info, catalog Pages and every page's Parent, and xref count == trailer Size; a stream's Length is len() of exactly the slice written between stream/endstream; the six metadata fields are stored under the key of the same name from the field of the same name; every font map in which getFont reserves a reference is written in Close with the matching vertical flag; no module type implementing an interface map key is non-comparable (or it is unwrapped before every use); the content-stream fragments form only PDF operators with balanced q/Q, BT/ET and terminated strings (abstract interpretation with inlining); every resource name given to gs/scn/SCN/Tf/Do is registered in the page's resources under the category the operator uses. NOT decided: byte-exact offsets of concrete documents, filter decodability, font program validity, the page count arithmetic.",
 		Assumptions: []string{"fmt.Fprintf writes exactly the formatted bytes and returns their count", "path data produced by Path.ToPDF is treated as an opaque, well-delimited operand sequence (its own operator arities are checked under C11/C12)"},
 		Run: func(c *core.Ctx, r *core.Report) {
+			E5NameEscape(c, r)
 			E4AlphaDivision(c, r)
 			E5JPEGColorSpace(c, r)
 			E5TextStringEncoding(c, r)
@@ -295,6 +298,7 @@ func init() {
 		Title:       "Flattening approximates every curve within the requested tolerance",
 		Explanation: "Decides the 'made only of straight segments' clause for every input and tolerance: by command-set typing over the whole package, Flatten's result can contain only MoveTo/LineTo/Close (plus such commands inherited from the receiver) and ReplaceArcs' result no ArcTo; the replace driver has the validated splice shape (each kind calls its own non-nil replacer, the record is cut before the replacement is joined, the cursor restarts at the re-attached remainder, so every remaining command passes through the switch); the consumers that rely on it (ToPDF/Tile arc panics, stride-4 scanner loops, the sweep's non-flat panic) only see such paths. Of XMonotone one clause: the second root of a cubic is re-mapped onto the remainder exactly when the curve was cut at the first (E11.remap-iff-split). NOT decided: the error bound, vertex order, same end points, termination as the tolerance goes to 0, X-monotonicity in general.",
 		Run: func(c *core.Ctx, r *core.Report) {
+			E11ToleranceThreaded(c, r)
 			E10Flatness(c, r)
 			E11RemapIffSplit(c, r)
 			E11FactorFromStep(c, r)
@@ -310,6 +314,9 @@ func init() {
 		Title:       "Stroke and Offset realise exact distance offsets of the path",
 		Explanation: "Decides one clause only, 'closed subpaths are joined, not capped' (and its dual: open sub-paths are capped iff stroking): in (*Path).offset the closed flag is set exactly by a Close command, every Capper call is control-dependent on !closed && strokeOpen and placed at the two ends, the Joiner wraps around from the last to the first segment when closed, the closed branch closes both offset curves, and Stroke/Offset pass strokeOpen true/false; plus the angle-unit consistency of the arc rotation passed to ArcTo (E8, whole package). NOT decided: every distance clause (w/2 neighbourhood, miter limit, inner-bend repair, offset direction).",
 		Run: func(c *core.Ctx, r *core.Report) {
+			E11SignFlipPerIteration(c, r)
+			E11SplitKeepsEndpoint(c, r)
+			E11ToleranceThreaded(c, r)
 			E11SignedMagnitude(c, r)
 			E11StrokeSettleRule(c, r)
 			E11JunctionPairing(c, r)
@@ -388,6 +395,7 @@ func init() {
 		Title:       "Text layout places every character once, inside the box, on ordered lines",
 		Explanation: "Decides two structural clauses. (1) the structural part of 'lines are stacked monotonically by their line heights … Text.Bounds/Heights enclose all spans': a line's top/ascent/descent/bottom are pure component-wise math.Max folds over its spans (each accumulator folded with the same-named component of FontFace.heights(), inline objects' ascent/descent feeding the right pair), and Text.Heights combines the first line's ascent with the last line's descent. (2) a necessary condition of 'right-aligned lines end at the width, centred lines are centred, no line extends beyond the box unless Overflows is reported': the width the line breaker records for a feasible break includes the width of the penalty (the hyphen shown at the break), by the same guarded addition the fitting computation uses. NOT decided: everything else — that every character appears exactly once and in order, glyph/byte index bookkeeping, glue stretching, alignment, bidi reordering, Overflows, which are arithmetic over runtime arrays with no structural clause.",
 		Run: func(c *core.Ctx, r *core.Report) {
+			E11IndentOnEveryPath(c, r)
 			E3TextBoundsFold(c, r)
 			E11AlignedWidthExcludesEOL(c, r)
 			E3LineHeightsEverySpan(c, r)
